@@ -79,6 +79,12 @@ CLAIMED = {
          "ProgramsWhatWasPosted (pir = floor(converted bps / 8), cir 1, metered gate, pbs = posted burst or the default) exactly for non-zero rates whose conversion fits 63 bits.",
          "UP4 slice/TC meter cell pending with the UP4 checks; a second header write is observed through net/http's log line. " + TRUST,
          "5 C19"),
+ "C18": ("TLA+ R-spec Config (Validated, DefaultsFilled over document classes) + TraceC18: TLC judges every outcome of the real LoadConfigFile on schema-generated documents, comment placements and byte strings",
+         "Library level against the exported loader: documents generated from the schema (14 fields x classes absent / valid / boundary / invalid / wrong JSON type; every single-field variation of four base "
+         "documents and pairs of variations), each loaded with and without // and single-line /* */ comments inserted at token gaps; seeded byte strings and adversarial comment forms; every upf*.jsonc shipped. "
+         "TLC checks ReturnedConfigurationIsValidated, DefaultsFilledIn (2s, 5, 15, 5s iff heartbeats, info, TC 3), CommentsNeverAlterValues (same outcome and same configuration as the comment-free text) and ShippedSamplesLoad; a panic of the loader is an event nothing consumes.",
+         "Pure-function property: TLC is evaluator of a relational post-condition over generated cases (weak fit, DESIGN 7); parse facts (duration / CIDR / IP) are computed by the worker with the standard library. " + TRUST,
+         "5 C18"),
 }
 
 def hooks_commits():
